@@ -25,6 +25,11 @@ MODELLED = ('OSError', 'ValueError', 'TypeError', 'UnicodeError', 'UnicodeEncode
             'UnicodeDecodeError', 'KeyError', 'IndexError', 'AttributeError', 'Exception')
 
 
+# rules of sibling properties that are necessary conditions of this one too
+# (evaluated by the sibling module on the same graphs, reported under this property)
+ALSO = {'C01': {'R01.2': 'an existing argument (no-follow) is never skipped as nonexistent'},
+ 'C18': {'R18.1': 'existence is decided without following links'}}
+
 def exempt_reason(b, r, n, cls):
     g = b.g
     if cls in ('EOFError', 'KeyboardInterrupt') and n.kind == 'ext' and \
@@ -105,9 +110,12 @@ def check(ctx):
                    'not under "result is Failure"' if not guard_ok else ''))
     # a Failure result always reaches the append: no path from a Failure return to the next
     # iteration that avoids the append
+    # (only the returns that *produce* the Failure: a return that hands on the result of
+    # a helper carries the helper's return site as origin and is covered from there)
     fail_rets = [n for n in b.nodes('return') if n.id in region and
                  flat(n.data.get('value')) and all(
-        isinstance(a, EnumVal) and a.name == 'Failure' for a in flat(n.data.get('value')))]
+        isinstance(a, EnumVal) and a.name == 'Failure' for a in flat(n.data.get('value')))
+        and all(o is None or o == n.id for a, o in alts(n.data.get('value')))]
     ctx.require(fail_rets, 'R16: no "return Failure" found in the per-argument code')
     for fr in fail_rets:
         skip = feasible_path(b, [fr.id], loop.id, blocked=[a.id for a in appends])
@@ -121,11 +129,16 @@ def check(ctx):
         v = n.data.get('value')
         if v is None or n.id in region:
             continue
-        for a in flat(v):
+        for a, o in alts(v):
             is_ok = (isinstance(a, ExtRef) and a.qualname == 'os.EX_OK') or is_const(a, 0) \
                 or (isinstance(a, Phi)) or (is_call(a, 'getattr') and len(a.args) >= 2 and
                                             is_const(strip(a.args[1]), 'EX_OK'))
-            for c, pol, an in guards(b, n.id):
+            gl = list(guards(b, n.id))
+            if o is not None and g.n(o).kind == 'assume':
+                # alternative of a conditional expression: its own test counts
+                gl += [(g.n(o).data['cond'], g.n(o).data['pol'], g.n(o))] + \
+                    list(guards(b, o))
+            for c, pol, an in gl:
                 c2, p2 = unwrap_not(c, pol)
                 mentions = contains(c2, lambda x: cid(x) in flist_ids)
                 if not mentions:
@@ -136,7 +149,9 @@ def check(ctx):
                 if isinstance(cc, Cmp) and is_len(cc.left) and is_const(strip(cc.right), 0):
                     empty_side = (cc.op in ('>', '!=') and not p2) or \
                         (cc.op == '==' and p2)
-                elif cid(cc) in flist_ids or is_len(cc):
+                elif cid(cc) in flist_ids or is_len(cc) or (
+                        is_call(cc, 'bool') and len(cc.args) == 1 and
+                        (cid(strip(cc.args[0])) in flist_ids or is_len(cc.args[0]))):
                     empty_side = not p2           # truthiness of the list / its length
                 else:
                     continue                       # any(...), custom predicates: not accepted
@@ -207,6 +222,7 @@ def check(ctx):
                 bad.append((n, 'a dict/list created before the loop (%s)' % (n.src or '')[:60]))
     for n in b.nodes('append'):
         if n.id in region and n.data['list'].site not in region and \
+                not n.data.get('comprehension') and \
                 n.data['list'].site in b.live and cid(n.data['list']) not in flist_ids:
             bad.append((n, 'list created before the loop'))
     ctx.ob('R16.4', 'no state is carried from one argument to the next', not bad,
